@@ -40,7 +40,7 @@ ANCHORS = ['pfhedge._utils.bisect:bisect',
            'pfhedge._utils.bisect:find_implied_volatility']
 PYTEST_WORKLOAD = True  # thorough tier also runs /repo/tests with these passive monitors attached (DESIGN.md 2.7)
 DECIDING = ["iv.from_derivative_is_explicit", "bisect.post", "bisect.analytic", "bisect.abort", "iv.european", "iv.american_binary", "iv.lookback", "iv.european_binary"]
-REQUIRED_BRANCHES = ["iv.derivative.running_max_above_spot", "abort.exact_budget", "abort.budget_minus_one", "abort.zero_budget_narrow", "bisect.decreasing", "bisect.increasing", "bisect.tensor_bracket", "bisect.from.quadratic_cvar", "bisect.from.cash",
+REQUIRED_BRANCHES = ["iv.custom_bracket", "iv.derivative.running_max_above_spot", "abort.exact_budget", "abort.budget_minus_one", "abort.zero_budget_narrow", "bisect.decreasing", "bisect.increasing", "bisect.tensor_bracket", "bisect.from.quadratic_cvar", "bisect.from.cash",
                      "bisect.from.implied_volatility"]
 
 _CTX = None
@@ -393,13 +393,23 @@ def drv_iv(ctx, k, rng):
     sig = t(rng.uniform(0.002, 0.99, n), dtype)
     tt = t(10 ** rng.uniform(-1.5, 0.5, n), dtype)
     precision = float(pick(rng, [1e-6, 1e-6, 1e-4, 1e-8])) if dtype == F64 else float(pick(rng, [1e-4, 1e-5]))
+    lo_b, up_b = 0.001, 1.0
     if kind == "european":
         call = bool(rng.random() < 0.5)
         s = t(rng.uniform(-0.4, 0.4, n), dtype)
         m = BSEuropeanOption(call=call, strike=K)
+        if rng.random() < 0.3:
+            # the search itself with a caller-chosen bracket and iteration budget
+            lo_b, up_b = float(pick(rng, [0.01, 0.05])), float(pick(rng, [2.0, 3.0]))
+            sig = t(rng.uniform(lo_b * 1.1, up_b * 0.98, n), dtype)
+            ctx.branch("iv.custom_bracket")
         price = m.price(s, tt, sig)
         pf = lambda v: m.price(s, tt, v)  # noqa: E731
-        iv = m.implied_volatility(s, tt, price, precision=precision)
+        if up_b != 1.0:
+            iv = B.find_implied_volatility(m.price, price, lower=lo_b, upper=up_b, precision=precision, max_iter=int(pick(rng, [60, 100, 1000])),
+                                           log_moneyness=s, time_to_maturity=tt)
+        else:
+            iv = m.implied_volatility(s, tt, price, precision=precision)
     elif kind == "european_binary":
         call = bool(rng.random() < 0.5)
         if rng.random() < 0.5:
@@ -423,12 +433,12 @@ def drv_iv(ctx, k, rng):
     ctx.seen(mon)
     e = float(torch.finfo(dtype).eps)
     with torch.no_grad():
-        p_lo = pf((sig - precision).clamp(min=1e-3))
-        p_hi = pf((sig + precision).clamp(max=1.0))
+        p_lo = pf((sig - precision).clamp(min=lo_b))
+        p_hi = pf((sig + precision).clamp(max=up_b))
         pscale0 = (K * (1 + s.exp())) if kind in ("european", "lookback") else torch.ones_like(s)
         gap = 64 * e * pscale0  # the price must move by clearly more than its own rounding noise over one precision step
         strictly = ((p_lo < price - gap) & (price + gap < p_hi)) | ((p_lo > price + gap) & (price - gap > p_hi))
-        inb = (sig >= 0.001 + precision) & (sig <= 1.0 - precision)
+        inb = (sig >= lo_b + precision) & (sig <= up_b - precision)
         close_sigma = (iv - sig).abs() <= 2 * precision + 8 * e
         p_iv = pf(iv)
         pscale = (K * (1 + s.exp())) if kind in ("european", "lookback") else torch.ones_like(s)
